@@ -23,7 +23,7 @@ idx={m['name']:m for m in json.load(open('mutants/index.json'))}
 bad=0; n=0
 for r in json.load(open(out+'.mutants')):
     m=idx[r['mutant']]; n+=1
-    expect = (r['property'] in m['expected_to_fire']) and not m['expected_silent']
+    expect = (r['property'] in m['expected_to_fire']) and not m['expected_silent'] and not m.get('thorough_only')
     got = r['exit']==1 and r['replay']=='reproduced=true'
     if r['exit']==2: print("HARNESS ERROR", r['mutant'], r['property']); bad+=1
     elif expect and not got: print("MISSED", r['mutant'], r['property']); bad+=1
